@@ -65,6 +65,11 @@ structure UseA where
   mod : Str
   only : Bool
   items : List UItem
+  /-- variant switch (DESIGN 2.1): `false` = the code as it is (rename list of a USE without
+      ONLY never consulted), `true` = the code after fixes/C06-rename-without-only.diff
+      (`result[used_names.get(name, name)] = obj`).  The harness decides at run time which
+      variant the working tree is. -/
+  renAll : Bool := false
   deriving DecidableEq, Repr
 
 structure Scope where
@@ -123,17 +128,17 @@ def usedNames (items : List UItem) : AList Str :=
     | .ren l r => aset u r l
     | .plain p => aset u p p) []
 
-def usedStep (only : Bool) (used : AList Str) (res : Table) (p : Str × Ent) : Table :=
+def usedStep (only renAll : Bool) (used : AList Str) (res : Table) (p : Str × Ent) : Table :=
   if only then
     match aget used p.1 with
     | some l => aset res l p.2
     | none => res
-  else aset res p.1 p.2
+  else aset res (if renAll then (aget used p.1).getD p.1 else p.1) p.2
 
 /-- one of the four tables returned by `get_used_entities` -/
 def getUsed (u : UseA) (pub : Table) : Table :=
   if u.only = false ∧ u.items = [] then pub
-  else pub.foldl (usedStep u.only (usedNames u.items)) []
+  else pub.foldl (usedStep u.only u.renAll (usedNames u.items)) []
 
 /-! ### `correlate` -/
 
@@ -241,9 +246,9 @@ def parseRest (rest : Str) : Bool × List UItem :=
     | some t => (true, (splitComma t).map parseItem)
     | none => (false, (splitComma rest).map parseItem)
 
-def mkUse (mod rest : Str) : UseA :=
+def mkUse (mod rest : Str) (fixed : Bool := false) : UseA :=
   let p := parseRest rest
-  { mod := lower mod, only := p.1, items := p.2 }
+  { mod := lower mod, only := p.1, items := p.2, renAll := fixed }
 
 /-- `^use(?:\s*(?:,\s*(?:non_)?intrinsic\s*)?::\s*|\s+)(\w+)\s*($|,.*)` (re.match,
     IGNORECASE) on a statement without newline: (module name, rest). -/
